@@ -164,10 +164,10 @@ func runC16(t *testing.T, c *choice.Stream, r *Result, opt RunOpt) {
 			inf, ok := col.(proto.Inferable)
 			var alts []string
 			switch {
-			case strings.HasPrefix(cs.Type, "Enum8("):
-				alts = []string{"Enum8('a' = 1, 'b' = 2)", "Enum8('x' = 1, 'y' = 2)", "Enum8('neg' = -128, 'zero' = 0, 'max' = 127, 'x y' = 5)", "Enum8('b' = 1, 'a' = 2, 'c' = 3)"}
-			case strings.HasPrefix(cs.Type, "Enum16("):
-				alts = []string{"Enum16('lo' = -32768, 'a' = 1, 'big' = 300, 'hi' = 32767)", "Enum16('p' = 1, 'q' = 300)", "Enum16('a' = 300, 'big' = 1)"}
+			case strings.HasPrefix(cs.Type, "Enum8("), strings.HasPrefix(cs.Type, "Enum16("):
+				// same width or the other one: the object does not care which enum it serves next
+				alts = []string{"Enum8('a' = 1, 'b' = 2)", "Enum8('x' = 1, 'y' = 2)", "Enum8('neg' = -128, 'zero' = 0, 'max' = 127, 'x y' = 5)", "Enum8('b' = 1, 'a' = 2, 'c' = 3)",
+					"Enum16('lo' = -32768, 'a' = 1, 'big' = 300, 'hi' = 32767)", "Enum16('p' = 1, 'q' = 300)", "Enum16('a' = 300, 'big' = 1)"}
 			case strings.HasPrefix(cs.Type, "DateTime64("):
 				alts = []string{"DateTime64(3)", "DateTime64(9)", "DateTime64(6)"}
 			}
@@ -179,12 +179,20 @@ func runC16(t *testing.T, c *choice.Stream, r *Result, opt RunOpt) {
 			if err != nil {
 				panic(err)
 			}
-			names = append(names, "reset+infer("+nt+")")
-			col.Reset()
+			inferFirst := c.Bool("reinfer.order", 1, 2) // proto.Results infers first and resets then
+			if inferFirst {
+				names = append(names, "infer("+nt+")+reset")
+			} else {
+				names = append(names, "reset+infer("+nt+")")
+				col.Reset()
+			}
 			model = nil
 			if err := inf.Infer(proto.ColumnType(nt)); err != nil {
-				fail("infer-failed", "infer-other-definition", "Infer(%q) on a reset column that was %q: %v", nt, cs.Type, err)
+				fail("infer-failed", "infer-other-definition", "Infer(%q) on a column that was %q: %v", nt, cs.Type, err)
 				break
+			}
+			if inferFirst {
+				col.Reset()
 			}
 			cs.Type, cs.RT = nt, nrt
 			mutated = true
